@@ -110,6 +110,11 @@ def gen_child(rnd, level, parent, defined, dynamic, conditional):
         stmts.append(("set", rnd.choice(["x", "y"]), ("c", level * 10)))
     if rnd.random() < 0.3:
         stmts.append(_obs(rnd))
+    if rnd.random() < 0.25:
+        # more content outside blocks: never rendered in a child
+        stmts.append(("filterblock", [("text", "FILTERED%d" % level), _obs(rnd)]))
+    if rnd.random() < 0.2:
+        stmts.append(("for", "i", "xs", [("text", "LOOP%d" % level), _obs(rnd)], None, False))
     names = [n for n in sorted(defined) if rnd.random() < 0.6]
     if rnd.random() < 0.3:
         names.append(rnd.choice(BN))
@@ -221,3 +226,21 @@ def conditions(tier, seed):
                         witnesses=[[[True, False, True, False], [5, 1], [2], 7, 0], [[False] * 4, [], [], 0, 1], [[True] * 4, [4], [6, 6], -1, 2]],
                         bounds="one generated hierarchy (1-4 templates): any 4 branch bools, any int lists of length <= 2, any context value, dynamic parent in {root, alternative root, missing}"))
     return out
+
+
+def known_include_outside_block_ok():
+    """Known-finding witness: {% include %} / {% call %} outside blocks in a child template render their output."""
+    e = Environment(loader=DictLoader({"p": "<{% block a %}A{% endblock %}>", "inc": "INC", "c2": "{% extends 'p' %}{% include 'inc' %}",
+                                       "c3": "{% extends 'p' %}{% macro m() %}M{{ caller() }}{% endmacro %}{% call m() %}c{% endcall %}"}))
+    return e.get_template("c2").render() == "<A>" and e.get_template("c3").render() == "<A>"
+
+
+def known_required_redeclared_ok():
+    """Known-finding witness: a required block re-declared as required in a descendant and never overridden renders empty."""
+    e = Environment(loader=DictLoader({"r0": "<{% block a required %}{% endblock %}>", "r1": "{% extends 'r0' %}{% block a required %}{% endblock %}",
+                                       "r2": "{% extends 'r1' %}"}))
+    try:
+        e.get_template("r2").render()
+    except TemplateRuntimeError:
+        return True
+    return False
